@@ -1828,7 +1828,13 @@ func (e *CoreExtension) filterMerge(value interface{}, args ...interface{}) (int
 			argRv := reflect.ValueOf(arg)
 			if argRv.Kind() == reflect.Map {
 				for _, key := range argRv.MapKeys() {
-					resultMap.SetMapIndex(key, argRv.MapIndex(key))
+					val := argRv.MapIndex(key)
+					// Entries that do not fit the receiver's key or value type cannot
+					// be stored in a map of that type
+					if !key.Type().AssignableTo(rv.Type().Key()) || !val.Type().AssignableTo(rv.Type().Elem()) {
+						return nil, fmt.Errorf("cannot merge %s into %s", argRv.Type(), rv.Type())
+					}
+					resultMap.SetMapIndex(key, val)
 				}
 			}
 		}
